@@ -25,6 +25,7 @@ inductive Err where
   | unalloc   -- an address is still NOT_ALLOCATED (-1) in the result (sizes ≥ 2^63 only)
   | draws     -- the oracle list is exhausted (not a Python outcome)
   | fuel      -- search-loop fuel exhausted (not a Python outcome; proved unreachable)
+  | lrfuel    -- `allocate_lr` loop fuel exhausted (not a Python outcome; proved unreachable)
   | chain     -- predecessor walk longer than the number of ranges (would loop forever in Python)
 deriving Repr, DecidableEq
 
@@ -310,7 +311,7 @@ def lrLoop (dyn : Array Dyn) (size align : Nat) (nbrs : List Nat) :
     if r.2.2 then .ok (r.1, r.2.1)
     else if align == 0 then .error .zerodiv
     else match fuel with
-      | 0 => .error .fuel
+      | 0 => .error .lrfuel
       | f + 1 => lrLoop dyn size align nbrs f r.1 r.2.1
 
 /-- `allocate_lr`: (address, predecessor) -/
@@ -421,14 +422,15 @@ structure SearchResult where
 
 def snapshot (dyn : Array Dyn) : Array (Option Nat) := dyn.map (·.addr)
 
-/-- `search`: the `while` loop, `fuel` bounds the number of iterations -/
+/-- `search`: the `while` loop; `fuel` bounds the number of iterations, `.ok none` = fuel exhausted
+    (proved impossible for `searchFuel`, see `hc_search_terminates`) -/
 def hcSearch (infos : Array Info) (minReq memLimit maxIter : Nat) :
     Nat → Array Dyn → List Nat → List Nat → Nat → Nat → Nat → Array (Option Nat) → List Nat →
-    Except Err SearchResult
+    Except Err (Option SearchResult)
   | fuel, dyn, indices, bestIndices, best, last, i, alloc, draws =>
     if (best > memLimit ∧ i < maxIter) ∨ i - last < hcMinIterationsImprove then
       match fuel with
-      | 0 => .error .fuel
+      | 0 => .ok none
       | f + 1 =>
         match hcFix infos dyn indices (i - last) draws with
         | .error e => .error e
@@ -438,12 +440,12 @@ def hcSearch (infos : Array Info) (minReq memLimit maxIter : Nat) :
           | .ok (dyn', newSize) =>
             if newSize ≤ best then
               let last' := if newSize < best then i else last
-              if newSize ≤ minReq then .ok ⟨snapshot dyn', i + 1, draws', newSize⟩
+              if newSize ≤ minReq then .ok (some ⟨snapshot dyn', i + 1, draws', newSize⟩)
               else hcSearch infos minReq memLimit maxIter f dyn' indices' indices' newSize last' (i + 1)
                      (snapshot dyn') draws'
             else hcSearch infos minReq memLimit maxIter f dyn' bestIndices bestIndices best last (i + 1)
                    alloc draws'
-    else .ok ⟨alloc, i, draws, best⟩
+    else .ok (some ⟨alloc, i, draws, best⟩)
 
 /-- enough fuel for `hcSearch` (see `hc_terminates`) -/
 def searchFuel (maxIter best : Nat) : Nat :=
@@ -475,7 +477,8 @@ def hcAllocate (lrs : List LR) (maxIter : Option Nat) (memLimit : Nat) (draws : 
       match hcSearch infos minReq memLimit maxIt (searchFuel maxIt best) dyn1 indices indices best 0 0
           (snapshot dyn1) draws with
       | .error e => .error e
-      | .ok r => fin r
+      | .ok none => .error .fuel
+      | .ok (some r) => fin r
     else fin ⟨snapshot dyn1, 0, draws, best⟩
 
 /-- `total_sz` of `tensor_allocation.hillclimb_allocate_live_ranges` -/
